@@ -63,4 +63,21 @@ theorem default_storage_old_code_fails :
     ((validateOld wSt3 wEnvS wRun0).2 = .ok ∧ (validateOld wSt3 wEnvS wRun0).1.dstor = 2 ∧
       (validate wSt3 wEnvS wRun0).1.dstor = 0) := by decide
 
+/-! ### the process-wide default logger (caddy.Log()) — finding F22
+
+Full statement (kept visible):
+  ∀ s c e, (changeTo c e s).2.accepted = false → (changeTo c e s).1.dlogger = s.dlogger
+  ∀ s c e, (validate c e s).1.dlogger = s.dlogger
+openLogs (setupNewDefault) makes the new configuration's default log the process default logger
+before anything else is provisioned, and nothing undoes it when the configuration is not used. -/
+
+/-- the negation of the full statement: over a running configuration (which owns the default
+    logger: 1), (a) a load rejected while provisioning an app and (b) a successful Validate both
+    leave caddy.Log() at the default log of a configuration that is not running (2) -/
+theorem default_logger_full_fails :
+    wRun0.dlogger = 1 ∧ wRun0.rawJSON = some wSt0 ∧
+    ((changeTo wSt1 wEnvS wRun0).2 = .errProvision ∧ (changeTo wSt1 wEnvS wRun0).1.dlogger = 2 ∧
+      (changeTo wSt1 wEnvS wRun0).1.rawJSON = some wSt0) ∧
+    ((validate wSt3 wEnvS wRun0).2 = .ok ∧ (validate wSt3 wEnvS wRun0).1.dlogger = 2) := by decide
+
 end CaddyModel.C01
